@@ -170,6 +170,52 @@ def packets(rng, tier, fam, n_random=None):
                         (0, 0, ({3: g.text(ln), 9: g.binary(ln), 8: g.word(ln)}, []), g.word(ln), g.binary(ln)),
                         g.text(ln), g.binary(ln)))
             out.append(('publish', 0, 0, 0, 0, g.word(ln), ({3: g.text(ln)}, []), g.binary(ln)))
+    # one maximal field at a time (65533..65535 bytes) in every length-prefixed position: sums of the form
+    # 2 + len (+1, +2) done in 16 bits only go wrong here
+    mf = max_field_packets(fam, tier)
+    out += mf
+    dist['max-field'] = len(mf)
     for p in out:
         dist[p[0]] = dist.get(p[0], 0) + 1
     return out, dist
+
+
+def max_field_packets(fam, tier='thorough'):
+    out = []
+    e = ({}, [])
+    for ln in (65533, 65534, 65535):
+        w = (b'a/' * 32768)[:ln]          # a valid topic name and a valid topic filter
+        t = (b'xy' * 32768)[:ln]
+        if tier == 'quick' and ln != 65535:
+            # quick tier: every position at 65,535 (beyond every 16-bit sum's limit), the shorter ones only where a
+            # sum 2 + len (+ 1, + 2) is formed per entry
+            if fam == 'v3':
+                out += [('publish', 0, 0, 0, 0, w, b'p'), ('subscribe', 3, [(w, 1)]), ('unsubscribe', 3, [w])]
+            else:
+                out += [('publish', 0, 0, 0, 0, w, e, b'p'), ('subscribe', 3, e, [(w, 1, 0, 0, 0)]), ('unsubscribe', 3, e, [w])]
+            continue
+        if fam == 'v3':
+            out += [('publish', 0, 0, 0, 0, w, b'p'), ('publish', 0, 0, 1, 7, w, b'p'), ('publish', 1, 1, 2, 7, w, b''),
+                    ('subscribe', 3, [(w, 1)]), ('subscribe', 3, [(b'a', 0), (w, 2)]),
+                    ('unsubscribe', 3, [w]), ('unsubscribe', 3, [b'a', w]),
+                    ('connect', 4, 1, 10, t, None, None, None), ('connect', 4, 1, 10, b'c', (1, 0, w, b'm'), None, None),
+                    ('connect', 3, 1, 10, b'c', (0, 0, b'w', t), None, None), ('connect', 4, 1, 10, b'c', None, t, None),
+                    ('connect', 4, 1, 10, b'c', None, b'u', t)]
+        else:
+            out += [('publish', 0, 0, 0, 0, w, e, b'p'), ('publish', 0, 0, 1, 7, w, e, b'p'), ('publish', 1, 1, 2, 7, w, e, b''),
+                    ('publish', 0, 0, 0, 0, b't', ({8: w}, []), b'p'), ('publish', 0, 0, 0, 0, b't', ({3: t}, []), b'p'),
+                    ('publish', 0, 0, 0, 0, b't', ({9: t}, []), b'p'), ('publish', 0, 0, 0, 0, b't', ({}, [(t, b'v')]), b'p'),
+                    ('publish', 0, 0, 0, 0, b't', ({}, [(b'k', t)]), b'p'),
+                    ('subscribe', 3, e, [(w, 1, 0, 0, 0)]), ('subscribe', 3, e, [(b'a', 0, 1, 1, 2), (w, 2, 0, 0, 0)]),
+                    ('unsubscribe', 3, e, [w]), ('unsubscribe', 3, e, [b'a', w]),
+                    ('connect', 5, 1, 10, e, t, None, None, None), ('connect', 5, 1, 10, e, b'c', (1, 0, e, w, b'm'), None, None),
+                    ('connect', 5, 1, 10, e, b'c', (0, 0, e, b'w', t), None, None), ('connect', 5, 1, 10, e, b'c', None, t, None),
+                    ('connect', 5, 1, 10, e, b'c', None, b'u', t)]
+            if ln != 65535:
+                continue
+            out += [('connect', 5, 1, 10, ({21: t}, []), b'c', None, None, None),
+                    ('connect', 5, 1, 10, ({21: b'm', 22: t}, []), b'c', None, None, None),
+                    ('connack', 0, 0, ({18: t}, [])), ('connack', 0, 0, ({31: t}, [])), ('connack', 0, 0, ({26: t}, [])),
+                    ('puback', 3, 16, ({31: t}, [])), ('pubrel', 3, 146, ({31: t}, [])), ('suback', 3, ({31: t}, []), [0]),
+                    ('unsuback', 3, ({31: t}, []), [0]), ('disconnect', 0, ({28: t}, [])), ('auth', 24, ({21: t}, []))]
+    return out
